@@ -22,17 +22,24 @@ func gosymRunQueueScenario() *gosymScenario {
 	ntypes := gosym_Param("types", 1)
 	w := &gosymWorld{ents: map[string]container.QueueEnt{}, running: map[string]time.Time{}, unalloc: map[arvados.InstanceType]int{}, snapshot: map[string]int{}}
 	sc := &gosymScenario{w: w, nc: nc, states: map[string]arvados.ContainerState{}, prios: map[string]int64{}, its: map[string]string{}, isrun: map[string]bool{}}
+	lite := gosym_Param("lite", 0) == 1 // reduced domain: Queued/Locked only, nothing running yet, priorities 1..3
 	for i := 0; i < nc; i++ {
 		u := gosymCNames[i]
-		st := gosymState("state."+u, true)
+		st := gosymState("state."+u, !lite)
+		if lite {
+			st = []arvados.ContainerState{arvados.ContainerStateQueued, arvados.ContainerStateLocked}[gosym_Choice("qstate."+u, 2)]
+		}
 		pr := gosym_Int64Range("prio."+u, 0, 3)
+		if lite {
+			gosym_Assume(pr >= 1)
+		}
 		it := gosymITs[0]
 		if ntypes > 1 && gosym_Fork("type2."+u) {
 			it = gosymITs[1]
 		}
 		sc.states[u], sc.prios[u], sc.its[u] = st, pr, it.Name
 		w.ents[u] = container.QueueEnt{Container: arvados.Container{UUID: u, State: st, Priority: pr}, InstanceType: it}
-		if gosym_Fork("running." + u) {
+		if !lite && gosym_Fork("running."+u) {
 			w.running[u] = time.Time{}
 			sc.isrun[u] = true
 		}
